@@ -106,4 +106,6 @@ def tautomer_stereo_family():
     """stereo labels sitting on or next to groups that tautomerise (the label has to be dropped or kept consistently when the double bond moves)"""
     return ['C/C(=N/O)NC', 'C/C(=N\\O)NC', 'O/N=C(\\C)CC', 'C/C=C(/C)O', 'C/C=C(\\C)O', 'C/C=C/C(C)=O', 'C/C=C\\C(C)=O', 'CC(=O)[C@H](C)CC', 'C[C@H](O)C(C)=O', 'C/N=C(/C)NC',
             'C/N=C(\\C)N(C)C', 'O=C1CC[C@H](C)C1', 'C/C=C/C=C(/C)O', 'N/C(C)=C/C(C)=O', 'C/C(O)=C/C(C)=O', 'CC(=O)/C=C(/C)N', 'C[C@H]1CC(=O)C=C1', 'C/C=C1/CCCC1=O', 'O/N=C1/CC[C@H](C)C1',
-            'C/C(=N/N)C(C)=O', 'C/C(=N\\NC)/C=C/C', 'C[C@H](N)C(=N)O', 'C/C(S)=C/C', 'C/C=C(/C)S', 'O/C(=C/[C@H](C)CC)C']
+            'C/C(=N/N)C(C)=O', 'C/C(=N\\NC)/C=C/C', 'C[C@H](N)C(=N)O', 'C/C(S)=C/C', 'C/C=C(/C)S', 'O/C(=C/[C@H](C)CC)C',
+            # ring carbonyls where the keto-enol walk forks (quinones, ene-diones in rings)
+            'O=C1C=CC(=O)C=C1', 'O=C1C=CC=CC1=O', 'CC1=CC(=O)C=CC1=O', 'O=C1CCC(=O)C=C1', 'O=C1C=CC(=O)c2ccccc12', 'O=C1CC(=O)C=C1']
